@@ -249,6 +249,17 @@ static void run_intrusive_dups(const std::vector<long long>& seq, const char* fa
       }
       for (long long k : { 0LL, 999LL, 2000LL }) if (b.find(k, ICmp{}) || a.find(k + 5000, ICmp{})) C.viol("intrusive-dups:find:absent-key-found", "a key never inserted is found", J0());
    }
+   // a node that was the one and only member of a chain since discarded (it is that chain's black root, without children) is
+   // offered to another chain at every stage of that chain's growth
+   if (ok && !seq.empty()) {
+      IChain c; std::set<long long> in_c;
+      for (long long k : seq) {
+         { IChain once; INode* solo = new INode(5000 + k); nodes.push_back(solo); once.insert(solo, ICmp{});       // `once` is dropped here, solo keeps what it was given
+           in_c.insert(solo->key); c.insert(solo, ICmp{}); C.count("recycled_sole_members_inserted");
+           if (!check(c, in_c, "C", "after the former sole member of a discarded chain was inserted")) break; }
+         if (in_c.insert(k).second) { INode* z = new INode(k); nodes.push_back(z); c.insert(z, ICmp{}); if (!check(c, in_c, "C", "after an insertion")) break; }
+      }
+   }
    for (auto p : nodes) delete p;
 }
 
@@ -423,7 +434,7 @@ static void body(Ctx& C)
    C.assume("comparators supplied by the harness are total orders");
    C.assume("exhaustive only up to the stated bounds; longer sequences are sampled");
    for (int i = 0; i < 6; ++i) C.need(std::string("fixup_case_") + std::to_string(i));
-   C.need("wide_result_sequences"); C.need("intrusive_duplicates_offered"); C.need("rejected_nodes_offered_to_a_second_chain"); C.need("insertions_refused_by_the_element_constructor");
+   C.need("wide_result_sequences"); C.need("intrusive_duplicates_offered"); C.need("rejected_nodes_offered_to_a_second_chain"); C.need("insertions_refused_by_the_element_constructor"); C.need("recycled_sole_members_inserted");
 
    const int maxn = C.thorough ? 9 : 8;
    // -- all permutations of 1..n ------------------------------------------------------
@@ -520,7 +531,7 @@ static void body(Ctx& C)
          while (ks.size() < n) {
             long long k = 0;
             switch (kind) {
-            case 0: k = (long long)(local.below(4000)) * (1LL << 32) + (long long)local.below(3); break;          // differences that are multiples of 2^32 (+ small)
+            case 0: k = (long long)(local.below(400000)) * (1LL << 32) + (long long)local.below(3); break;          // differences that are multiples of 2^32 (+ small)
             case 1: k = (long long)(local.below(1u << 20)) * ((1LL << 31) + 12345); break;                         // differences beyond 2^31
             default: k = (long long)(local.next() >> 2) - (1LL << 61); break;                                      // random 62-bit keys, both signs
             }
